@@ -7,7 +7,7 @@ from vf.gens import corpus, grammar, mutate
 
 PROPERTY = 'C02'
 RULE = ('cases = (dialect, text): coverage-guided byte-level campaign (atheris/libFuzzer, dictionary of all lexemes, 16 processes) + corpus statements, random grammar derivations, single/double token mutations of '
-        'both, random lexeme sequences, SQL-flavoured and arbitrary Unicode text; non-trivial = not verbatim from the '
+        'both, random lexeme sequences, SQL-flavoured and arbitrary Unicode text, pump inputs (opening lexeme + a 1-3 character fragment repeated 30-70 times; the parse runs under a 30 s watchdog) + bounded-exhaustive: every production of each live grammar with every alternative of each of its nonterminals; non-trivial = not verbatim from the '
         'corpus and lexes completely (reaches the parser); distinct by (dialect, text)')
 ASSUMPTIONS = ['termination is observed under a 30 s per-case watchdog, not proved',
                'RecursionError is judged only for inputs <= 2000 characters with parenthesis depth <= 50']
